@@ -415,7 +415,7 @@ pub fn all() -> Vec<Harness> {
             name: "first-load-vs-overlay.readers-first",
             about: "as first-load-vs-overlay, with the owner yielding before the overlay so that the edit lands at each point inside the reader's first load",
             threads: 2,
-            bound_quick: 2,
+            bound_quick: 1,
             bound_thorough: 3,
             cap_quick: 60_000,
             cap_thorough: 2_000_000,
